@@ -107,6 +107,21 @@ theorem pipelined_select_deselect :
       .casSelected, .injRecv, .casSelectLost, .injRecv, .runLoad, .runCommit, .runLoad, .runCommit]
     c.st = .NS ∧ c.lastReacted = .NS ∧ c.emitted = [(.NC, .NS), (.NS, .S), (.S, .NS)] := by decide
 
+/-- **A disconnect reaction is never fired without the state change.** When the supervisor processes a
+    disconnect or T7 event and fires a reaction (teardown, reconnect), it has published NotConnected:
+    a T7 that lost the tie to a select commit fires nothing. -/
+theorem disconnect_reaction_publishes (c : Cfg) (ev : Ev) (cur : St) (hev : ev = .disc ∨ ev = .t7)
+    (h : (commit c ev cur).reactions ≠ c.reactions) : (commit c ev cur).st = .NC := by
+  rw [commit_st]
+  cases ho : outcome ev cur c.st (deselPending c)
+  · exfalso; apply h; unfold commit; simp [ho]
+  · exfalso
+    rcases hev with rfl | rfl <;> cases cur <;> cases hs : c.st <;> cases hd : deselPending c <;>
+      simp [outcome, transition, hs, hd] at ho
+  · exfalso; apply h; unfold commit; simp [ho]
+  · rcases hev with rfl | rfl <;> cases cur <;> cases hs : c.st <;> cases hd : deselPending c <;>
+      simp_all [outcome, transition]
+
 /-- **Closed latch.** In every reachable configuration, once the close event has been processed no
     action of the run goroutine changes `State()` any more. -/
 theorem closed_latch (as : List Act) (h : (run init as).closed = true) :
